@@ -43,6 +43,7 @@ def run_job(job: dict) -> dict:
     flavour = shard.get("flavour")
     t0 = time.time()
     cpu0 = time.process_time()
+    K.SECOND_OPINION = job.get("tier") == "thorough" or bool(os.environ.get("VERIF_SECOND_OPINION"))
     n, bad = K.validate(int(os.environ.get("VERIF_SEED", "0") or 0))
     fn, _rp = KERNELS[kname]
     results = fn(flavour) if flavour else fn()
@@ -56,6 +57,7 @@ def run_job(job: dict) -> dict:
         "cpu_s": round(time.process_time() - cpu0, 2), "wall_s": round(time.time() - t0, 2),
         "path_status": {}, "twin": {"status": "REFUTED"},  # vacuity: see "validated" below
         "validated_vectors": n, "validation_mismatches": bad[:5],
+        "second_solver": dict(K.SECOND, solver="cvc5 1.0 binary") if K.SECOND_OPINION else None,
         "obligations": [{"kernel": r.kernel, "obligation": r.obligation, "status": r.status, "detail": r.detail, "paths": r.paths} for r in results],
         "label_sets": [[[f"{r.kernel}:{r.obligation[:50]}:{r.status}"], 1] for r in results],
         "samples": [{"labels": [r.status], "notes": {"kernel": r.kernel, "obligation": r.obligation, "paths": r.paths}} for r in results[:4]],
